@@ -396,7 +396,7 @@ def main():
         pid, tier, seed, cov["evaluations"], cov["distinct_nontrivial"], len(unknown), len(known_hits), len(broken), wall))
 
     if repo_path() != "/repo":
-        for f in (modfile, modfile[:-4] + ".sum"):
+        for f in [modfile, modfile[:-4] + ".sum"] + [os.path.join(BUILD, x) for x in os.listdir(BUILD) if x.endswith(".alt%d" % os.getpid())]:
             try:
                 os.remove(f)
             except OSError:
